@@ -1010,7 +1010,16 @@ func ruleStopSweep(c *Ctx, rid string) {
 			case *ssa.MapUpdate:
 				if owner, f, _, ok := fieldOf(x.Map); ok && owner == "redis.ConnManager" && f == "m" {
 					nw++
-					c.check(strings.HasSuffix(fnName(fn), "ConnManager).AddConn"), rid, "registry-writer/"+fnName(fn), c.P.instrPos(x), "insert by AddConn", "the registry is inserted into outside AddConn")
+					// an inserter is a method of the registry that files the connection it is
+					// handed under that connection's own key (AddConn, and variants of it such as
+					// an insert with an admission limit)
+					isMgrMethod := fn.Signature.Recv() != nil && typeName(fn.Signature.Recv().Type()) == "redis.ConnManager"
+					par, valIsParam := strip(x.Value).(*ssa.Parameter)
+					ownKey := false
+					if valIsParam {
+						ownKey = derivedFromParam(x.Key, par, 0)
+					}
+					c.check(isMgrMethod && valIsParam && ownKey, rid, "registry-writer/"+fnName(fn), c.P.instrPos(x), "insert of the connection handed in, under its own key, by a method of the registry", "the registry is inserted into outside a registry method that files the connection it was handed under that connection's own key")
 				}
 			case *ssa.Call:
 				if b, ok := x.Common().Value.(*ssa.Builtin); ok && (b.Name() == "delete" || b.Name() == "clear") {
@@ -1356,4 +1365,38 @@ func ruleGoroutineOwnsItsIteration(c *Ctx, rid string) {
 	if bad == 0 {
 		c.ok(rid, "go-sites-per-iteration", "", fmt.Sprintf("%d go statements inside loops; all receive per-iteration values", n))
 	}
+}
+
+// derivedFromParam: v is computed from par only (method calls on it, field loads, conversions).
+func derivedFromParam(v ssa.Value, par *ssa.Parameter, d int) bool {
+	if d > 5 {
+		return false
+	}
+	switch x := strip(v).(type) {
+	case *ssa.Parameter:
+		return x == par
+	case *ssa.Call:
+		args := callArgs(x.Common())
+		if x.Common().IsInvoke() {
+			args = append([]ssa.Value{x.Common().Value}, args...)
+		}
+		if len(args) == 0 {
+			return false
+		}
+		for _, a := range args {
+			if !derivedFromParam(a, par, d+1) {
+				return false
+			}
+		}
+		return true
+	case *ssa.UnOp:
+		return derivedFromParam(x.X, par, d+1)
+	case *ssa.FieldAddr:
+		return derivedFromParam(x.X, par, d+1)
+	case *ssa.Field:
+		return derivedFromParam(x.X, par, d+1)
+	case *ssa.Convert:
+		return derivedFromParam(x.X, par, d+1)
+	}
+	return false
 }
